@@ -90,6 +90,41 @@ func parseNode(dec *json.Decoder) (jnode, error) {
 	return jnode{}, fmt.Errorf("unexpected token %v", tok)
 }
 
+// sortLists orders every list below n by the canonical text of its items (inner lists first).
+func (n jnode) sortLists() jnode {
+	out := n
+	out.items = make([]jnode, len(n.items))
+	for i, e := range n.items {
+		out.items[i] = e.sortLists()
+	}
+	if n.kind == 'a' {
+		texts := make([]string, len(out.items))
+		for i, e := range out.items {
+			var b strings.Builder
+			e.write(&b, false)
+			texts[i] = b.String()
+		}
+		idx := make([]int, len(texts))
+		for i := range idx {
+			idx[i] = i
+		}
+		sort.SliceStable(idx, func(a, c int) bool { return texts[idx[a]] < texts[idx[c]] })
+		sorted := make([]jnode, len(idx))
+		for j, i := range idx {
+			sorted[j] = out.items[i]
+		}
+		out.items = sorted
+	}
+	return out
+}
+
+// introspectionKey: response keys under which the data comes from the introspection system, whose
+// lists (types, fields, args, enumValues, …) are produced by ranging over Go maps: their order is
+// arbitrary from one execution to the next and carries no meaning.
+func introspectionKey(k string) bool {
+	return strings.HasPrefix(k, "__") || strings.HasPrefix(k, "introspection_")
+}
+
 func (n jnode) get(key string) (jnode, bool) {
 	for i, k := range n.keys {
 		if k == key {
@@ -148,6 +183,14 @@ func canonResponse(raw []byte) (string, bool) {
 	first := true
 	if d, ok := n.get("data"); ok {
 		b.WriteString(`"data":`)
+		if d.kind == 'o' {
+			d.items = append([]jnode{}, d.items...)
+			for i, k := range d.keys {
+				if introspectionKey(k) {
+					d.items[i] = d.items[i].sortLists()
+				}
+			}
+		}
 		d.write(&b, false)
 		first = false
 	}
